@@ -203,6 +203,7 @@ func (H) Reset() {
 		api.RegisterHandler("/vs/{r}/{w}", handlerT{})
 	}
 	config.VerifSimMuteEvents()
+	api.VerifSimResetPackage()
 	api.VerifSimResetRun()
 	rng.VerifSimSeed([]byte("verif deterministic seed 0123456789abcdef"))
 }
